@@ -137,6 +137,15 @@ def exec_job(job):
     A0 = input_of(job["K"], mode)
     L0 = input_of(job["K"], "len")         # the same lengths as a plain length matrix
     L0[L0 < 0] = 0
+    # magnitude family (seed round 7): every length multiplied by 2**pow2 (pow2 = -27..-40: lengths of
+    # 1e-8..1e-12, e.g. 1/weight of large counts).  A power of two changes no rounding, so the scaled
+    # distances are the unscaled ones times 2**pow2 EXACTLY; they are divided back before encoding and
+    # the record / specification keep the small integer lengths.  Absolute tolerances in the code
+    # (np.isclose's default atol = 1e-8) only show at such magnitudes.
+    sc = 2.0 ** job["pow2"] if job.get("pow2") else 1.0
+    if sc != 1.0:
+        L0 = L0 * sc
+        A0 = A0 * sc if mode == "len" else A0 / sc
     base = job["fn"].split(":")[0]
 
     def arg(name):                          # thunk: a fresh argument array for routine `name`
@@ -185,7 +194,7 @@ def exec_job(job):
     try:
         if job["kind"] in ("dist", "distbig"):
             D, R, B, P = out
-            rec["D"] = mat_len(D, mode)
+            rec["D"] = mat_len(np.asarray(D, dtype=float) / sc, mode)
             if R is not None:
                 rec["R"] = encode.mat_int(np.asarray(R).astype(float))
             if B is not None:
@@ -193,7 +202,7 @@ def exec_job(job):
             if P is not None and job["kind"] == "dist":
                 rec["P"] = encode.mat_int(np.asarray(P) + 1)
         elif job["kind"] == "agree":
-            rec["Ds"] = [mat_len(D, mode) for D in out]
+            rec["Ds"] = [mat_len(np.asarray(D, dtype=float) / sc, mode) for D in out]
         elif base == "charpath":
             rec["Din"] = mat_len(out[0], mode)
             rec["lam"] = encode.e_q(out[1])
@@ -581,6 +590,13 @@ def build_jobs(ctx):
             jobs.append(dict(fn=fn + (":" + {"bin": "none", "len": "none", "inv": "inv"}[mode] if floyd else ""),
                              kind="distbig", algo=ALGO[fn], mode=mode, K=K, src_kind="big-" + name, rows=rows,
                              dtype=arg_dtype(fn, dt, mode), draw=dt, layout=lay, big=1))
+    # ---- magnitude family: a sample of the weighted small / random / structured / dense-ties inputs
+    #      again with every length scaled by 2**-27 .. 2**-40 (see exec_job)
+    cand = [j for j in jobs if j["kind"] in ("dist", "agree") and j["mode"] in ("len", "inv")
+            and j.get("draw", "float64") == "float64" and j.get("layout", "C") == "C"
+            and not j["src_kind"].startswith("scale") and len(j["K"]) <= 40]
+    for j in inputs.sample(rng, cand, 150 if q else 1500):
+        jobs.append(dict(j, pow2=-rng.choice([27, 30, 34, 40]), src_kind=j["src_kind"] + "-tiny"))
     return jobs
 
 
